@@ -116,16 +116,16 @@ class CallReplayer(replay.Replayer):
             label = fmt(*got)
             if hasattr(self.ad, "after_divergence"):
                 self.ad.after_divergence(call, got)  # e.g. keep observing what the code does next
-            self._record(
-                replay.Divergence(
-                    "outcome",
-                    label,
-                    {"outcome_not_allowed_by_spec"},
-                    self.labels(path),
-                    expected=sorted(l for l, _ in alts.values()),
-                    got=label,
-                )
+            dv = replay.Divergence(
+                "outcome",
+                label,
+                {"outcome_not_allowed_by_spec"},
+                self.labels(path),
+                expected=sorted(l for l, _ in alts.values()),
+                got=label,
             )
+            dv.src = src  # the spec state in which the call was made
+            self._record(dv)
             return False, None
         slabel, dst = hit
         self.covered.add((src, slabel))
